@@ -186,8 +186,8 @@ theorem foldApply_mem {h : Nat} : ∀ (l : List TxAbs) (u0 : List Utxo) (u : Utx
 
 theorem local_connect {c : Chain} {b : Block} {t : TxAbs} (hl : Local c t) (hm : ¬ b.mtp < c.mtp)
     (hcb : ∀ x ∈ t.ins, x.txid ≠ b.cb.id) : Local (c.connect b) t := by
-  obtain ⟨l1, l2, l3, l4, l5, l6, l7, l8⟩ := hl
-  refine ⟨l1, l2, l3, l4, l5, l6, ?_, ?_⟩
+  obtain ⟨l1, l2, l3, l4, l5, l7, l8⟩ := hl
+  refine ⟨l1, l2, l3, l4, l5, ?_, ?_⟩
   · have : (c.connect b).height = c.height + 1 ∧ (c.connect b).mtp = b.mtp := by simp [Chain.connect]
     rw [this.1, this.2]
     exact isFinal_mono (by omega) (by omega) l7
